@@ -184,8 +184,8 @@ class Job:
         if self.procs:
             e["GOMAXPROCS"] = str(self.procs)
         if COVER:
-            os.makedirs(COVDIR, exist_ok=True)
-            e["GOCOVERDIR"] = COVDIR
+            os.makedirs(os.path.join(COVDIR, self.prop), exist_ok=True)
+            e["GOCOVERDIR"] = os.path.join(COVDIR, self.prop)
         return e
 
 
